@@ -38,10 +38,14 @@ CLAIMED = {
    text="Kernel-checked theorems: the validation rule as read from the current source (non-empty, first byte none of . / \\, no '/' anywhere) with its exact characterisation; for EVERY invalid name and every environment response, get/touch/set/put/get_or_update fail with InvalidInput (Unsupported for writes without a write cache) and issue no call naming a path under any cache directory (class-monitor weakest preconditions, then every run). Tie: grammar/fuzz names x every operation x plain/sharded/read-only stacks with sentinel files around and inside the cache root: result class, mutating calls, before/after snapshots, and model/implementation agreement; accepted names must keep every mutating call on dir/name, the temp directory or the key's shard directories.",
    ref="DESIGN.md section 6 C16", technique="Rocq proof (trace-class monitor wp over program trees, for all responses) + name fuzzing correspondence",
    note="Confinement of ACCEPTED names is currently established by the correspondence (trace oracle on the implementation + model agreement), the general theorem over the model being work in progress (see DESIGN.md). Finding F1 (names with '/' accepted) reproduced and repaired by fix commit 71a85a6."),
- "C18": dict(
+ "C18": dict(category="fault_enumeration",
    text="The model's fault semantics (a faulted call changes nothing and returns the error; a failing close still releases the descriptor) is proved; the main statement is established on the fault-injected model/implementation correspondence: every call of every fault-free execution x plausible errno, injected once through the interposer, with result class, snapshots and call trace equal to the model's under the same fault, and the property's oracles on the implementation (no panic except the documented flush, reported success achieved, no masked miss, entries complete and read-only, no temp leak, re-issue succeeds).",
    ref="DESIGN.md section 6 C18", technique="fault enumeration through an LD_PRELOAD interposer against the Rocq model run under the same fault (general theorem over fault positions: work in progress)",
    note="Level: the universally quantified theorem over fault positions is not finished; what is kernel-checked today is the fault semantics lemma and every theorem proved for arbitrary call results (C20, C16), which cover faults as a special case. Finding F4 reproduced and repaired by fix commit ba190b8. ESTALE is, by the library's documented design, an absence."),
+ "C15": dict(
+   text="Kernel-checked theorems for arbitrary environment responses (every state, fault, interference), hence every run: the read-only API issues no path-naming mutating call at all; every path-naming mutating call of the stacked API (promotion, replacement, misses, invalid names, maintenance included) names a path under the write directory, one of its ancestors, a caller-provided path or the system temp directory — never under a read-only root disjoint from those. Tie: C13 matrix + random stacked histories (missing read-only directories, invalid names): trace oracle (only open/stat/read/seek/close and atime-only futimens under a read-only root) and before/after snapshots of the read-only roots equal up to a non-decreasing st_atime; model/implementation agreement.",
+   ref="DESIGN.md section 6 C15", technique="Rocq proof (class-monitor weakest preconditions over program trees, all responses) + trace/snapshot correspondence",
+   note="Descriptor-based effects (futimens/fchmod/write on a descriptor of a read-only entry) are enforced on the implementation's traces and by model agreement; the kernel-checked statement covers path-naming calls. Callbacks are assumed confined likewise."),
 }
 
 checks, na = [], []
@@ -56,7 +60,7 @@ for p in props:
             "evidence_file": "/verif/evidence/%s.json" % i,
             "replay_cmd_template": "./check %s --replay {path}" % i,
             "engine": "kismet-rocq",
-            "level_claimed": {"category": "proof", "text": c["text"], "design_ref": c["ref"]},
+            "level_claimed": {"category": c.get("category", "proof"), "text": c["text"], "design_ref": c["ref"]},
             "level_note": c["note"],
             "technique": c["technique"],
         })
